@@ -1,7 +1,185 @@
-import MakoModel.Path.Model
+import MakoModel.Path.Below
+/-!
+# C09 – template lookup never escapes its configured directories
+
+Property theorems only (helper lemmas live in `MakoModel/Path/*.lean`).
+
+Reading of the property on the model (`MakoModel/Path/Model.lean`, tied to /repo by `corr_C09`):
+* `TemplateLookup.__init__` stores `normpath d0` for every configured directory `d0`;
+* `get_template uri` probes and loads `uriToSrc (normpath d0) uri`;
+* `Template.__init__` (reached from `_load` before any read of the file) rejects the URI unless
+  `templateCheck uri`;
+* `<%include>`, `<%inherit>`, `<%namespace>` and the `Namespace` API first rewrite the URI with
+  `adjustUri` and then go through the same `get_template`.
+
+`Below d p` says: the *string* `p` is `d`, or `d` + `/` + one or more ordinary name components
+(no `..`, `.`, empty or slash-containing component) – the usual "real path starts with the root" test,
+here for all strings.
+-/
 namespace MakoModel.C09
 open MakoModel.Path
 
-theorem placeholder : run false [] [] = [] := rfl
+/-- A URI that passes the check of `Template.__init__` normalises – on its own, in relative mode –
+to ordinary names only: no `..` survives. (All strings.) -/
+theorem check_gives_names (uri : List Char) (h : templateCheck uri = true) :
+    ∀ c ∈ run false [] (splitSlash (relPart uri)), NameComp c := by
+  have hu := relPart_head uri
+  have h' : dotdot.isPrefixOf (normpath (relPart uri)) = false := by
+    simpa [templateCheck, uNorm] using h
+  generalize relPart uri = u at *
+  have hst : StackOK false (run false [] (splitSlash u)) :=
+    run_stackOK false [] _ (mem_splitSlash_noslash u) (stackOK_nil false)
+  obtain ⟨names, j, hR, _, hn⟩ := hst
+  cases j with
+  | zero => rw [hR]; simpa using hn
+  | succ j =>
+    exfalso
+    have hune : u ≠ [] := by
+      intro e; subst e
+      simp [splitSlash, run, step] at hR
+    have hnorm : normpath u = build 0 (run false [] (splitSlash u)).reverse := by
+      have := normpath_eq_build u hune
+      rw [initialSlashes_of_head u hu] at this
+      simpa using this
+    have hrev : (run false [] (splitSlash u)).reverse
+        = dotdot :: (List.replicate j dotdot ++ names.reverse) := by
+      rw [hR, List.reverse_append, List.reverse_replicate, List.replicate_succ]; rfl
+    have hpre : dotdot.isPrefixOf (normpath u) = true := by
+      rw [hnorm, hrev]
+      cases hrest : (List.replicate j dotdot ++ names.reverse) with
+      | nil => simp [build, joinSlash, dotdot, List.isPrefixOf]
+      | cons c cs => simp [build, joinSlash, dotdot, List.isPrefixOf]
+    rw [hpre] at h'
+    contradiction
+
+/-- **lookup_contained.** For every URI string and every configured directory `d0` (stored as
+`normpath d0`): if the URI passes `Template.__init__`'s check, the file `get_template` resolves it to is
+the directory itself or lies below it – whatever mixture of `..`, `.`, empty segments, repeated or
+leading slashes and backslashes the URI is spelled with. -/
+theorem lookup_contained (d0 uri : List Char) (h : templateCheck uri = true) :
+    Below (normpath d0) (uriToSrc (normpath d0) uri) :=
+  below_of_clean d0 (relPart uri) (relPart_head uri) (check_gives_names uri h)
+
+/-- **include_contained.** The same for a URI produced by `adjust_uri` from any calling template URI
+(`<%include>`, `<%inherit>`, `<%namespace>`, `get_namespace/get_template/include_file`), at any depth:
+containment does not depend on how the URI string was produced. -/
+theorem include_contained (d0 uri : List Char) (relativeto : Option (List Char)) (r : List Char)
+    (_hadj : adjustUri uri relativeto = some r) (h : templateCheck r = true) :
+    Below (normpath d0) (uriToSrc (normpath d0) r) :=
+  lookup_contained d0 r h
+
+/-- **rejected_or_contained.** Stated as the dichotomy the property uses: either the URI is rejected
+(`TemplateLookupException` from `Template.__init__`) or the resolved file is in/below the root. -/
+theorem rejected_or_contained (d0 uri : List Char) :
+    templateCheck uri = false ∨ Below (normpath d0) (uriToSrc (normpath d0) uri) := by
+  cases h : templateCheck uri with
+  | false => exact Or.inl rfl
+  | true => exact Or.inr (lookup_contained d0 uri h)
+
+/-- **normpath_shape.** `posixpath.normpath` of any string is assembled from at most two leading slashes
+and a stack of components that are ordinary names on top of `..`s, the latter only for relative paths. -/
+theorem normpath_shape (p : List Char) :
+    ∃ k D, k ≤ 2 ∧ normpath p = build k D ∧ StackOK (k != 0) D.reverse := by
+  obtain ⟨k, D, hd, hk, hst⟩ := normpath_normDir p
+  exact ⟨k, D, hk, hd, hst⟩
+
+/-- **module_path_contained.** The module file of an accepted URI is placed below `module_directory`:
+normalising `join(normpath(moddir), u_norm + ".py")` gives a path strictly below `normpath moddir`. -/
+theorem module_path_contained (moddir uri : List Char) (h : templateCheck uri = true) :
+    Below (normpath moddir) (normpath (modulePath moddir uri)) := by
+  unfold modulePath
+  have hnames := check_gives_names uri h
+  have hu := relPart_head uri
+  -- the components of `u_norm + ".py"`
+  have hsplit : ∃ cs, cs ≠ [] ∧ CleanRel cs ∧ uNorm uri ++ ['.', 'p', 'y'] = joinSlash cs := by
+    unfold uNorm
+    generalize relPart uri = u at *
+    by_cases hune : u = []
+    · subst hune
+      refine ⟨[['.', '.', 'p', 'y']], by simp, ?_, by simp [normpath_nil, dot, joinSlash]⟩
+      intro c hc; simp at hc; subst hc
+      simp [NameComp, dot, dotdot]
+    · have hnorm := normpath_eq_build u hune
+      rw [initialSlashes_of_head u hu] at hnorm
+      simp only [bne_self_eq_false] at hnorm
+      generalize hR : (run false [] (splitSlash u)).reverse = R at *
+      have hRn : ∀ c ∈ R, NameComp c := by
+        intro c hc; apply hnames
+        have : c ∈ (run false [] (splitSlash u)).reverse := by rw [hR]; exact hc
+        simpa using this
+      rw [hnorm]
+      clear hnorm hR hnames
+      induction R with
+      | nil =>
+        refine ⟨[['.', '.', 'p', 'y']], by simp, ?_, by simp [build, dot, joinSlash]⟩
+        intro c hc; simp at hc; subst hc
+        simp [NameComp, dot, dotdot]
+      | cons c R ih =>
+        have hc := hRn c (by simp)
+        cases R with
+        | nil =>
+          refine ⟨[c ++ ['.', 'p', 'y']], by simp, ?_, ?_⟩
+          · intro x hx; simp at hx; subst hx
+            obtain ⟨h1, h2, h3, h4⟩ := hc
+            refine ⟨by simp, ?_, ?_, ?_⟩
+            · cases c with
+              | nil => contradiction
+              | cons a as => simp [dot]
+            · cases c with
+              | nil => contradiction
+              | cons a as => cases as <;> simp [dotdot]
+            · simp [h4]
+          · have : c ≠ [] := hc.1
+            simp [build, joinSlash, this]
+        | cons c2 R2 =>
+          obtain ⟨cs, hcs1, hcs2, hcs3⟩ := ih (fun x hx => hRn x (by simp [hx]))
+          have hb2 : build 0 (c2 :: R2) = joinSlash (c2 :: R2) := by
+            obtain ⟨x, r, hxr, _⟩ := joinSlash_ne_nil (c2 :: R2) (by simp)
+              (fun x hx => (hRn x (by simp [hx])).good)
+            simp [build, hxr]
+          have hb1 : build 0 (c :: c2 :: R2) = c ++ '/' :: joinSlash (c2 :: R2) := by
+            have : c ≠ [] := hc.1
+            simp [build, joinSlash_cons_cons, this]
+          rw [hb2] at hcs3
+          refine ⟨c :: cs, by simp, ?_, ?_⟩
+          · intro x hx; simp at hx
+            cases hx with
+            | inl e => subst e; exact hc
+            | inr e => exact hcs2 x e
+          · rw [hb1]
+            cases cs with
+            | nil => contradiction
+            | cons y ys => rw [joinSlash_cons_cons, ← hcs3]; simp
+  obtain ⟨cs, hcs1, hcs2, hcs3⟩ := hsplit
+  rw [hcs3]
+  have hgood : ∀ c ∈ cs, GoodComp c := fun c hc => (hcs2 c hc).good
+  obtain ⟨x, r, hxr, hx⟩ := joinSlash_ne_nil cs hcs1 hgood
+  apply below_of_clean
+  · rw [hxr]; simpa using hx
+  · rw [splitSlash_joinSlash cs hcs1 (fun c hc => (hgood c hc).2), run_names false [] cs hcs2]
+    intro c hc
+    exact hcs2 c (by simpa using hc)
+
+/-! ## Non-vacuity and sanity: concrete instances (kernel evaluation of the model) -/
+
+/-- an accepted URI with `..`, repeated slashes and a backslash; resolves inside the root -/
+example : templateCheck "/sub//..\\./a../x.html".toList = true
+    ∧ uriToSrc "/srv/t".toList "/sub//..\\./a../x.html".toList = "/srv/t/a../x.html".toList := by decide
+
+/-- a URI that would escape is exactly one the check rejects -/
+example : templateCheck "sub/../../rootx/evil.html".toList = false
+    ∧ uriToSrc "/srv/root".toList "sub/../../rootx/evil.html".toList = "/srv/rootx/evil.html".toList := by decide
+
+/-- `Below` is not trivially true: the sibling whose name has the root as a string prefix is not below it -/
+example : ¬ Below "/srv/root".toList "/srv/rootx/evil.html".toList := by
+  intro h
+  cases h with
+  | inl h => exact absurd h (by decide)
+  | inr h =>
+    obtain ⟨cs, _, _, h⟩ := h
+    have : dirPrefix "/srv/root".toList = "/srv/root/".toList := by decide
+    rw [this] at h
+    have h9 := congrArg (fun l => l.take 10) h
+    simp at h9
 
 end MakoModel.C09
